@@ -565,16 +565,7 @@ func c08Patterns(c *Ctx, p *Prog) {
 			continue
 		}
 		// a '=' byte is appended / stored into the pattern built from the key
-		hasEq := false
-		eachInstr(fn, func(_ *ssa.BasicBlock, in ssa.Instruction) {
-			if st, ok := in.(*ssa.Store); ok {
-				if k, ok := constInt(st.Val); ok && k == '=' {
-					if b, ok := st.Val.Type().Underlying().(*types.Basic); ok && b.Kind() == types.Uint8 {
-						hasEq = true
-					}
-				}
-			}
-		})
+		hasEq := storesEquals(fn, 0)
 		n++
 		c.Check(hasEq, R, name+":pattern-ends-with-equals", p.pos(fn.Pos()), "the sub-name pattern is key + '='", "the sub-name pattern is the bare key without '=': key /size also matches /sizeclass=..., so excluding or extracting one key affects another")
 	}
@@ -1062,4 +1053,33 @@ func c08RowReset(c *Ctx, p *Prog) {
 		c.Check(reset, R, fnName(fn)+":row-reset", p.pos(run.Pos()), "the whole row buffer is reset before the projection functions run", "the projection functions run on a row buffer that still holds the previous result's values: a field that no function assigns for this result (the unit after a ProjectValues call, a key a sparse group did not see) keeps its old value, so two results with different values get equal keys, or equal ones different keys, depending on what was projected before")
 	}
 	c.Floor(R, "functions running the projection functions", n, 1)
+}
+
+// storesEquals: fn puts the byte '=' into a buffer, itself or through a function of its package that returns a byte slice
+// (a helper building the "key=" pattern).
+func storesEquals(fn *ssa.Function, d int) bool {
+	if fn == nil || fn.Blocks == nil || d > 2 {
+		return false
+	}
+	found := false
+	eachInstr(fn, func(_ *ssa.BasicBlock, in ssa.Instruction) {
+		switch x := in.(type) {
+		case *ssa.Store:
+			if k, ok := constInt(x.Val); ok && k == '=' {
+				if b, ok := x.Val.Type().Underlying().(*types.Basic); ok && b.Kind() == types.Uint8 {
+					found = true
+				}
+			}
+		case *ssa.Call:
+			sc := x.Call.StaticCallee()
+			if sc != nil && sc.Pkg == fn.Pkg && sc != fn && sc.Signature.Results().Len() == 1 {
+				if sl, ok := sc.Signature.Results().At(0).Type().Underlying().(*types.Slice); ok {
+					if b, ok := sl.Elem().Underlying().(*types.Basic); ok && b.Kind() == types.Uint8 && storesEquals(sc, d+1) {
+						found = true
+					}
+				}
+			}
+		}
+	})
+	return found
 }
